@@ -276,10 +276,15 @@ def gen_track_history(rng, schema, nops, hist):
                 v = 0
             if f == "origin_database_uuid" and rng.random() < 0.5:
                 v = b""
+            frame = rng.random() < 0.5
+            if frame:
+                lines.append("tt.raw")
             lines.append("tt.get %d" % i)
             lines.append("tt.setc %s %d %s" % (f, i, tok(TRACK_ACC_TY[f], v)))
             lines.append("tt.get %d" % i)
             lines.append("tt.getc %s %d" % (f, i))
+            if frame:
+                lines.append("tt.raw")
             g.count("op:setc")
             g.count("setc:" + f)
         elif c < 0.82:
@@ -632,6 +637,20 @@ class Oracle:
                 f, i = t[1], int(t[2])
                 if ids is not None and i not in ids and not h.startswith("throw "):
                     self.direct.append((k, "missing-row", "set_%s on a row id with no row answered '%s' instead of an error" % (f, h)))
+                if h == "ok":
+                    # frame on the other rows: the raw Track dumps around the call (independent reader)
+                    a, b = k - 1, k + 1
+                    while a >= 0 and L[a].split()[0] in ("tt.get", "tt.getc", "tt.ids", "tt.exists", "tt.find"):
+                        a -= 1
+                    while b < len(L) and L[b].split()[0] in ("tt.get", "tt.getc", "tt.ids", "tt.exists", "tt.find"):
+                        b += 1
+                    if a >= 0 and b < len(L) and L[a] == "tt.raw" and L[b] == "tt.raw" and H[a].startswith("ok ") \
+                            and H[b].startswith("ok "):
+                        ra, rb = raw_rows(H[a]), raw_rows(H[b])
+                        changed = sorted(j for j in set(ra) | set(rb) if j != i and ra.get(j) != rb.get(j))
+                        if changed:
+                            self.direct.append((k, "column-set-other-rows",
+                                                "set_%s(%d, …) changed other rows: ids %s" % (f, i, changed)))
                 if h == "ok" and k >= 1 and k + 1 < len(L):
                     nxt, prv = L[k + 1].split(), L[k - 1].split()
                     if nxt[:2] == ["tt.get", str(i)] and prv[:2] == ["tt.get", str(i)] and H[k - 1].startswith("ok ") \
@@ -742,6 +761,17 @@ class Oracle:
                         pass
                 out.append((k, kind, what + (" (members: %s)" % field if field else ""), detail))
         return sorted(out)
+
+
+def raw_rows(h):
+    """'ok seq=(n) {id=i1 …} {id=i2 …}' -> dict id -> row text"""
+    out = {}
+    body = h[h.index("{"):] if "{" in h else ""
+    for row in re.findall(r"\{(.*?)\}(?= \{|$)", body):
+        m = re.match(r"id=i(-?\d+) ", row)
+        if m:
+            out[int(m.group(1))] = row
+    return out
 
 
 def parse_raw(h):
